@@ -29,6 +29,7 @@ LEVEL_NOTE = ("pre-emption granularity is the source line of ellipticcurve.py / 
               "instruction inside the publishing functions in instr mode); SimLock replaces threading.Lock only; "
               "interleavings inside C builtins or a single bytecode are out of reach")
 RUNS = {"quick": 24000, "thorough": 800000}
+OPTIMIZED_PASS = {"quick": 1200, "thorough": 16000}   # extra runs under PYTHONOPTIMIZE=1 (assert statements removed)
 RULE = ("lock part: seeded programs for up to 2 readers + 2 writers (1-3 rounds, 0-3 yields and optional stall inside the "
         "critical section) x seeded schedule (pre-emption steps + choice list); curve part: 2-3 thread programs over "
         "shared fresh generator / shared Jacobian point on a toy prime-order curve, SECP112r1/128r1 or NIST256p x "
@@ -39,7 +40,7 @@ REAL = ["ecdsa._rwlock.RWLock/_LightSwitch (unmodified algorithm)", "ecdsa.ellip
         "ecdsa.numbertheory", "ecdsa.keys / ecdh / plug-in ECC proxies (library-level programs on NIST256p)"]
 STUBS = ["threading.Lock -> SimLock (parks threads, raises on release of an unlocked lock)",
          "thread scheduling -> Sched (baton passing)", "clock -> virtual (sim.sleep)", "RNG -> per-thread seeded stream"]
-PROBES = ["lock-sweep-run", "preempt-inside-mul_add", "two-readers-inside", "writer-parked-while-readers-inside", "reader-parked-behind-writer",
+PROBES = ["runs-with-assertions-disabled", "lock-sweep-run", "preempt-inside-mul_add", "two-readers-inside", "writer-parked-while-readers-inside", "reader-parked-behind-writer",
           "preempt-inside-precompute", "preempt-inside-scale", "table-built-in-run", "clock-jump",
           "three-threads", "sweep-run", "instr-mode"]
 THOROUGH_ONLY_PROBES = ["sweep-run", "lock-sweep-run"]
